@@ -175,6 +175,11 @@ func (fe *FE) doReturn(st *State, results []Val, recovered bool) {
 	fe.paths++
 	ctx := fe.ownCtx(st)
 	ctx.result = results
+	if fe.C.Returns != nil && len(results) == 1 {
+		ctx.what = "returns"
+		rv := ctx.eval(fe.C.Returns)
+		fe.addOb(st, "returns", "value", nil, ctx.eqVals(results[0], rv), "the function returns exactly "+fe.C.Returns.String())
+	}
 	for i, e := range fe.C.Ensures {
 		fe.curPos = fmt.Sprintf("%s:%d", shortFile(e.File), e.Line)
 		fe.assertExprNoAssume(st, ctx, e.E, "ensures", clauseLabel(e, i), fe.tagsOf(e), e.Src)
@@ -351,6 +356,7 @@ func (fe *FE) loopMods(li *loopInfo) {
 				addMap(x.Type().Underlying().(*types.Map))
 			case *ssa.Next:
 				li.modGh["visited"] = true
+				li.modGh["itercount"] = true
 				li.modGh["lastkey"] = true
 				if it, ok := x.Iter.(*ssa.Range); ok {
 					li.modGh["$visited_"+it.Name()] = true
@@ -362,6 +368,13 @@ func (fe *FE) loopMods(li *loopInfo) {
 					case "append":
 						et := com.Args[0].Type().Underlying().(*types.Slice).Elem()
 						add(elemBase(et), et)
+						for _, oc := range fe.matchHooks(&callInfo{display: []string{"append", "append:" + shortPkgType(com.Args[0].Type())}}, "call") {
+							for _, cl := range oc.Clauses {
+								if cl.Kind == "after" || cl.Kind == "before" {
+									li.modGh[cl.Var] = true
+								}
+							}
+						}
 					case "delete":
 						addMap(com.Args[0].Type().Underlying().(*types.Map))
 					}
